@@ -22,6 +22,7 @@ type Builtin struct {
 	DocArgs  []string // names from FuncDoc.Args, "?" for non-literal entries
 	ArgsLit  bool
 	DocText  string
+	Examples int          // number of entries of a literal FuncDoc.Examples, -1 when not a literal
 	Type     *types.Named // struct type embedding slip.Function built by the creator
 	Creator  *ast.FuncLit
 	CreatorF *types.Func // creator given as a named function
@@ -261,6 +262,12 @@ func (c *Ctx) fillDoc(b *Builtin, e ast.Expr) {
 			b.Kind, _ = ConstString(p.TypesInfo, kv.Value)
 		case "Text":
 			b.DocText, _ = ConstString(p.TypesInfo, kv.Value)
+		case "Examples":
+			if ecl, ok := kv.Value.(*ast.CompositeLit); ok {
+				b.Examples = len(ecl.Elts)
+			} else {
+				b.Examples = -1
+			}
 		case "Args":
 			acl, ok := kv.Value.(*ast.CompositeLit)
 			if !ok {
